@@ -169,6 +169,27 @@ def ob_calderon(mesh, transform=None):
     return out
 
 
+def ob_calderon_sequence(mesh):
+    """bounded: "whatever the shape, size, position or element numbering of the mesh", also when several meshes are assembled in one process: the residuals on
+    the moved / scaled / renumbered copy, assembled AFTER the original in the same interpreter, equal those of the original up to the scaling of the quadrature
+    error (same orders; a copy that differs only by a similarity transformation and numbering has the same relative residual up to rounding)."""
+    import warnings
+
+    warnings.simplefilter("ignore")
+    r1 = calderon_residuals(mesh, 8, 7)
+    r2 = calderon_residuals(mesh, 8, 7, "moved")
+    txt = "original %.1e/%.1e, moved+renumbered copy assembled afterwards %.1e/%.1e" % (r1[0], r1[1], r2[0], r2[1])
+    if max(r2) > 3 * max(r1) + 1e-9 or max(r1) > 1e-3:
+        return violated("Calderon residuals on %s at orders (8,7): %s" % (mesh, txt), witness={"mesh": mesh, "sequence": ["original", "moved"]},
+                        replay={"callable": "checks.c01:replay_calderon_sequence", "kwargs": {"mesh": mesh}, "confirmed": True}, signature="calderon-sequence/%s" % mesh)
+    return held(txt)
+
+
+def replay_calderon_sequence(mesh):
+    r = ob_calderon_sequence(mesh)
+    return {"violates": r["status"] == "violated", "detail": r["detail"]}
+
+
 def ob_calderon_orders(mesh):
     """bounded: for every regular order 6..12 (singular order 8) both residuals stay below 5e-5 on the coarse mesh (they are 7e-6 .. 1e-7 on the
     unchanged tree): a quadrature rule that is wrong for one particular order shows up here."""
@@ -261,6 +282,7 @@ def main():
     run.add("calderon.all-regular-orders[octa]", "bounded", ob_calderon_orders, "octa")
     run.add("calderon.tetra", "bounded", ob_calderon, "tetra")
     run.add("calderon.octa", "bounded", ob_calderon, "octa")
+    run.add("calderon.sequence[octa, then its moved and renumbered copy, one process]", "bounded", ob_calderon_sequence, "octa")
     if thorough:
         run.add("calderon.cube12", "bounded", ob_calderon, "cube12")
         run.add("calderon.octa.moved", "bounded", ob_calderon, "octa", "moved")
